@@ -155,9 +155,10 @@ def long_path_task(task):
     of the small exhaustive (k,n) configurations."""
     _, k, n, u, window = task
     from ixai.storage import UniformReservoirStorage
+    k_arg, k = k, int(k)
 
     def driver(run):
-        s = UniformReservoirStorage(size=k, store_targets=True)
+        s = UniformReservoirStorage(size=k_arg, store_targets=True)
         last_change = k
         prev = None
         for t in range(1, n + 1):
@@ -174,7 +175,7 @@ def long_path_task(task):
                         raise Violation("C08/long-path-not-a-k-subset", f"UniformReservoirStorage(size={k}) after {t} "
                                         f"observations on the equidistributed path u0={u}: {len(ids)} rows, {len(set(ids))} distinct", {})
                     if t - last_change > window:
-                        raise Violation("C08/stopped-accepting", f"UniformReservoirStorage(size={k}) on the path where the "
+                        raise Violation("C08/stopped-accepting", f"UniformReservoirStorage(size={k_arg!r}) on the path where the "
                                         f"continuous draws are frac({u} + i*0.618..): no arrival between {last_change} and {t} entered the reservoir "
                                         f"(newest stored arrival {max(ids)}); under the uniform law each arrival n is kept "
                                         f"with probability k/n, the chance of such a gap is about {(last_change / t) ** k:.1e}", {})
@@ -265,6 +266,10 @@ def main(rep):
     long_tasks = [('long', k, n, u, w) for (k, n, w) in ((1000, 6000 if rep.tier != 'thorough' else 20000, 1500), (400, 5000, 1500),
                                                         (100, 4000, 2500))
                   for u in (0.5, 0.05, 0.95, 0.3)]
+    # the size given as a narrow NumPy integer (typed parameter grid): the stream is longer than the type's range
+    import numpy as _np
+    long_tasks += [('long', _np.int8(20), 700, u, 300) for u in (0.5, 0.3)] + [('long', _np.uint8(40), 1200, u, 500) for u in (0.5, 0.3)] + \
+        [('long', _np.int16(40), 36000, 0.3, 2500)]
     through = [('through', e, k, 5) for e in ('pfi', 'sage') for k in (1, 2, 3)]
     long_res = choice.pmap(lambda t: through_explainer_task(t) if t[0] == 'through' else long_path_task(t),
                            long_tasks + through, chunksize=1)
